@@ -59,8 +59,11 @@ type FanScript struct {
 	ReadOnly bool `json:"readonly,omitempty"`
 	// Via: fanout (fanoutconsumer.NewX) | router-all (connector.NewXRouter(m).ConsumeX)
 	// | router-pick (connector.NewXRouter(m).Consumer(ids...)).
-	Via    string   `json:"via"`
-	Pick   []int    `json:"pick,omitempty"` // member indexes, router-pick only
+	Via string `json:"via"`
+	// Pick (router-pick only): the ids handed to Consumer(ids...), as member
+	// indexes.  An index may be repeated; an index >= len(Layout) names a
+	// pipeline of the right signal that is not attached to the router.
+	Pick   []int    `json:"pick,omitempty"`
 	Cons   []Cons   `json:"cons"`
 	Layout []Member `json:"layout"`
 }
@@ -153,9 +156,25 @@ func genFan(t *rapid.T) FanScript {
 		for i := range idx {
 			idx[i] = i
 		}
-		perm := rapid.Permutation(idx).Draw(t, "pickperm")
-		k := rapid.IntRange(1, len(perm)).Draw(t, "npick")
-		s.Pick = append([]int(nil), perm[:k]...)
+		switch rapid.SampledFrom([]string{"distinct", "distinct", "repeated", "unknown"}).Draw(t, "pickmode") {
+		case "distinct":
+			perm := rapid.Permutation(idx).Draw(t, "pickperm")
+			k := rapid.IntRange(1, len(perm)).Draw(t, "npick")
+			s.Pick = append([]int(nil), perm[:k]...)
+		case "repeated":
+			// with replacement; lengths around the number of attached pipelines matter
+			// (a router may special-case "as many ids as pipelines")
+			k := rapid.IntRange(1, len(idx)+1).Draw(t, "npick")
+			for i := 0; i < k; i++ {
+				s.Pick = append(s.Pick, rapid.SampledFrom(idx).Draw(t, "pick"))
+			}
+		default:
+			k := rapid.IntRange(1, len(idx)+1).Draw(t, "npick")
+			for i := 0; i < k; i++ {
+				s.Pick = append(s.Pick, rapid.IntRange(0, len(idx)+1).Draw(t, "pick"))
+			}
+			s.Pick[rapid.IntRange(0, k-1).Draw(t, "unknownpos")] = len(idx) + rapid.IntRange(0, 1).Draw(t, "unknownid")
+		}
 	}
 	s.ReadOnly = pct(t, "readonly", 30)
 	if pct(t, "pre?", 30) {
@@ -387,6 +406,8 @@ func runFan(s FanScript) (nontrivial bool, key string, f *vt.Finding) {
 		members[k] = api.fanout(inner)
 	}
 	used := make([]int, 0, len(s.Layout))
+	named := map[int]int{} // router-pick: how often a member was named
+	anyRepeat := false
 	var top capser
 	switch s.Via {
 	case "router-all", "router-pick":
@@ -403,22 +424,45 @@ func runFan(s FanScript) (nontrivial bool, key string, f *vt.Finding) {
 			}
 		} else {
 			var pick []pipeline.ID
-			seen := map[int]bool{}
+			unknown := false
 			for _, k := range s.Pick {
-				if k < 0 || k >= len(members) || seen[k] {
-					continue
+				switch {
+				case k < 0:
+				case k >= len(members):
+					unknown = true
+					pick = append(pick, pipeline.NewIDWithName(api.signal, fmt.Sprintf("unattached%d", k)))
+				default:
+					pick = append(pick, ids[k])
+					if named[k] == 0 {
+						used = append(used, k)
+					}
+					named[k]++
+					if named[k] > 1 {
+						anyRepeat = true
+					}
 				}
-				seen[k] = true
-				pick = append(pick, ids[k])
-				used = append(used, k)
 			}
 			if len(pick) == 0 {
 				return false, key, nil
 			}
 			var err error
 			top, err = api.routerPick(mm, pick)
+			if unknown {
+				// an id that is not attached to the router: Consumer must refuse, so nothing can be delivered
+				cFan.Class("signal:"+s.Signal, "via:router-pick", "pick:unknown-id", fmt.Sprintf("pick:%d-ids-of-%d-pipelines", len(pick), len(members)))
+				if err == nil {
+					return true, key, vt.Failf("router/unknown-id-accepted", "router over %d pipelines: Consumer(%v) names a pipeline that is not attached but returned a consumer and no error", len(members), pick)
+				}
+				return false, key, nil
+			}
 			if err != nil {
 				return true, key, vt.Failf("router/consumer-error", "router.Consumer(%v) failed: %v", pick, err)
+			}
+			if anyRepeat {
+				cFan.Class("pick:repeated-id")
+			}
+			if len(pick) == len(members) {
+				cFan.Class("pick:as-many-ids-as-pipelines")
 			}
 		}
 	default:
@@ -428,10 +472,12 @@ func runFan(s FanScript) (nontrivial bool, key string, f *vt.Finding) {
 		}
 	}
 	invoked := make([]bool, len(s.Cons))
+	repeated := make([]bool, len(s.Cons)) // leaf belongs to a pipeline named more than once: invocation count not asserted beyond >= 1
 	allMembersMutate := true
 	for _, k := range used {
 		for _, i := range s.Layout[k].Leaves {
 			invoked[i] = true
+			repeated[i] = named[k] > 1
 		}
 		if !memberMutates(&s, s.Layout[k]) {
 			allMembersMutate = false
@@ -496,7 +542,7 @@ func runFan(s FanScript) (nontrivial bool, key string, f *vt.Finding) {
 		switch {
 		case invoked[i] && st.calls == 0:
 			return true, key, vt.Failf("invocation/missing", "leaf %d (mutates=%v) was never invoked (%d of the invoked leaves fail)", i, s.Cons[i].Mutates, nFail)
-		case invoked[i] && st.calls > 1:
+		case invoked[i] && st.calls > 1 && !repeated[i]:
 			return true, key, vt.Failf("invocation/repeated", "leaf %d was invoked %d times", i, st.calls)
 		case !invoked[i] && st.calls > 0:
 			return true, key, vt.Failf("invocation/unpicked", "leaf %d belongs to no picked pipeline but was invoked %d times", i, st.calls)
